@@ -503,9 +503,25 @@ def rule_enums(repo, rep):
     # enum-keyed config lookups: EnumCls[self._read_config(sec, key, default)] needs a default whose str() is a member name
     af = repo.mod("architecture_features")
     f = af.func("ArchitectureFeatures._get_vela_config")
+    # (the lookup may be made directly, or in a helper of the class that is handed the value: `self._to_x(key, self._read_config(...))`)
+    helper_enum = {}
+    for q_, fn_ in af.functions.items():
+        if q_.startswith("ArchitectureFeatures."):
+            ps_ = {a.arg for a in fn_.args.args}
+            for sub in ast.walk(fn_):
+                if isinstance(sub, ast.Subscript) and isinstance(sub.value, ast.Name) and isinstance(sub.slice, ast.Name) and sub.slice.id in ps_ and sub.value.id[:1].isupper():
+                    helper_enum[q_.split(".")[-1]] = sub.value.id
+    lookups = []
     for sub in ast.walk(f):
         if isinstance(sub, ast.Subscript) and isinstance(sub.value, ast.Name) and isinstance(sub.slice, ast.Call) and call_name(sub.slice) == "self._read_config":
-            ecls = sub.value.id
+            lookups.append((sub.value.id, sub.slice))
+        if isinstance(sub, ast.Call) and isinstance(sub.func, ast.Attribute) and sub.func.attr in helper_enum:
+            for a_ in sub.args:
+                if isinstance(a_, ast.Call) and call_name(a_) == "self._read_config":
+                    lookups.append((helper_enum[sub.func.attr], a_))
+    for ecls, rc_ in lookups:
+        if True:
+            sub = ast.Subscript(value=ast.Name(id=ecls, ctx=ast.Load()), slice=rc_, ctx=ast.Load())
             default = sub.slice.args[2]
             cm = None
             for m in repo.core_modules():
@@ -536,12 +552,15 @@ def rule_enums(repo, rep):
                 node = c_.node_of(sub)
                 guarded = False
                 for t in c_.nodes[3:]:
-                    if t.kind == "test" and node is not None and c_.dominates(t.id, node) and norm(t.expr) in (f"{var} not in {ecls}.__members__", f"{var} in {ecls}.__members__"):
+                    # a membership test of the name: against the enumeration's members, or against a narrower collection of member names
+                    txt_ = str(norm(t.expr))
+                    is_member_test = txt_ in (f"{var} not in {ecls}.__members__", f"{var} in {ecls}.__members__") or re.fullmatch(rf"{var} (not )?in \w+", txt_) is not None
+                    if t.kind == "test" and node is not None and c_.dominates(t.id, node) and is_member_test:
                         bad_side = True if "not in" in str(norm(t.expr)) else False
                         raises = all(any(isinstance(x, ast.Raise) for x in ast.walk(c_.nodes[b].stmt)) if c_.nodes[b].stmt is not None else False for b in c_.branch_succ(t.id, bad_side))
                         guarded = raises and not any(b == node or c_.path_avoiding(b, node, [t.id]) for b in c_.branch_succ(t.id, bad_side))
                 n_lk += 1
-                rep.check(guarded, "C13-b", f"ethosu/vela/architecture_features.py:{q_}", f"{ecls}[{var}] (a name read from the configuration file) is reached only after `{var} in {ecls}.__members__` held",
+                rep.check(guarded, "C13-b", f"ethosu/vela/architecture_features.py:{q_}", f"{ecls}[{var}] (a name read from the configuration file) is reached only after a raising membership test of `{var}`",
                           "an unknown name in the configuration file ends in an uncaught KeyError")
                 dflt = [s_.value.args[2] for s_ in ast.walk(fn_) if isinstance(s_, ast.Assign) and norm(s_.targets[0]) == var and isinstance(s_.value, ast.Call) and len(s_.value.args) >= 3]
                 rep.check(bool(dflt) and all(norm(d_).endswith(".name") for d_ in dflt), "C13-b", f"ethosu/vela/architecture_features.py:{q_}", f"the default for {var} is a member name (`.name`)",
